@@ -277,4 +277,253 @@ bool aws_byte_cursor_read_float_be64(struct aws_byte_cursor *cur, double *var)
 READ_N_CONTRACT(8)
 ;
 
+
+/* ------------------------------------------------------------------ init / clean-up / growing operations */
+
+int aws_byte_buf_init(struct aws_byte_buf *buf, struct aws_allocator *allocator, size_t capacity)
+__CPROVER_requires(__CPROVER_is_fresh(buf, sizeof(*buf)))
+__CPROVER_requires(allocator != NULL)
+__CPROVER_assigns(*buf)
+__CPROVER_ensures(RET == AWS_OP_SUCCESS)
+__CPROVER_ensures(buf->len == 0 && buf->capacity == capacity && buf->allocator == allocator)
+__CPROVER_ensures(capacity == 0 ? buf->buffer == NULL : __CPROVER_is_fresh(buf->buffer, capacity))
+;
+
+int aws_byte_buf_init_copy(struct aws_byte_buf *dest, struct aws_allocator *allocator, const struct aws_byte_buf *src)
+__CPROVER_requires(__CPROVER_is_fresh(dest, sizeof(*dest)))
+__CPROVER_requires(allocator != NULL)
+__CPROVER_requires(BUF_OK(src))
+__CPROVER_requires(g_on ==> (g_j < src->len ==> g_src == src->buffer[g_j]))
+__CPROVER_assigns(*dest)
+__CPROVER_ensures(RET == AWS_OP_SUCCESS)
+__CPROVER_ensures(dest->len == src->len && dest->capacity == src->capacity && dest->allocator == allocator)
+__CPROVER_ensures(src->capacity == 0 ? dest->buffer == NULL : __CPROVER_is_fresh(dest->buffer, dest->capacity))
+__CPROVER_ensures(g_on && g_j < src->len ==> dest->buffer[g_j] == g_src)
+;
+
+int aws_byte_buf_init_copy_from_cursor(struct aws_byte_buf *dest, struct aws_allocator *allocator, struct aws_byte_cursor src)
+__CPROVER_requires(__CPROVER_is_fresh(dest, sizeof(*dest)))
+__CPROVER_requires(allocator != NULL)
+__CPROVER_requires((src.len == 0 && src.ptr == NULL) || __CPROVER_is_fresh(src.ptr, src.len))
+__CPROVER_requires(g_on ==> (g_j < src.len ==> g_src == src.ptr[g_j]))
+__CPROVER_assigns(*dest)
+__CPROVER_ensures(RET == AWS_OP_SUCCESS)
+__CPROVER_ensures(dest->len == src.len && dest->capacity == src.len && dest->allocator == allocator)
+__CPROVER_ensures(src.len == 0 ? dest->buffer == NULL : __CPROVER_is_fresh(dest->buffer, dest->capacity))
+__CPROVER_ensures(g_on && g_j < src.len ==> dest->buffer[g_j] == g_src)
+;
+
+void aws_byte_buf_secure_zero(struct aws_byte_buf *buf)
+__CPROVER_requires(BUF_OK(buf))
+__CPROVER_assigns(buf->len)
+__CPROVER_assigns(buf->capacity > 0 : __CPROVER_object_upto(buf->buffer, buf->capacity))
+__CPROVER_ensures(buf->len == 0 && buf->capacity == OLD(buf->capacity) && buf->buffer == OLD(buf->buffer) && buf->allocator == OLD(buf->allocator))
+__CPROVER_ensures(g_rz < buf->capacity ==> buf->buffer[g_rz] == 0)
+;
+
+void aws_byte_buf_reset(struct aws_byte_buf *buf, bool zero_contents)
+__CPROVER_requires(BUF_OK(buf))
+REQ_WITNESS_BUF(buf)
+__CPROVER_assigns(buf->len)
+__CPROVER_assigns(zero_contents && buf->capacity > 0 : __CPROVER_object_upto(buf->buffer, buf->capacity))
+__CPROVER_ensures(buf->len == 0 && buf->capacity == OLD(buf->capacity) && buf->buffer == OLD(buf->buffer) && buf->allocator == OLD(buf->allocator))
+__CPROVER_ensures(zero_contents && g_rz < buf->capacity ==> buf->buffer[g_rz] == 0)
+__CPROVER_ensures(g_on && !zero_contents && g_k < buf->capacity ==> buf->buffer[g_k] == g_old)
+;
+
+void aws_byte_buf_clean_up(struct aws_byte_buf *buf)
+__CPROVER_requires(BUF_OK(buf))
+__CPROVER_requires(g_zero_on ==> (g_rsize == buf->capacity && (g_rz < buf->capacity ==> buf->buffer[g_rz] == 0)))
+__CPROVER_assigns(*buf)
+__CPROVER_frees(buf->buffer)
+__CPROVER_ensures(buf->len == 0 && buf->capacity == 0 && buf->buffer == NULL && buf->allocator == NULL)
+;
+
+/* zeroes the whole storage BEFORE it goes back to the allocator: the replaced aws_mem_release contract demands a zero
+ * at the witness position g_rz of the block being released (g_zero_on is switched on by the harness). */
+void aws_byte_buf_clean_up_secure(struct aws_byte_buf *buf)
+__CPROVER_requires(BUF_OK(buf))
+__CPROVER_requires(g_zero_on ==> g_rsize == buf->capacity)
+__CPROVER_assigns(*buf)
+__CPROVER_assigns(buf->capacity > 0 : __CPROVER_object_upto(buf->buffer, buf->capacity))
+__CPROVER_frees(buf->buffer)
+__CPROVER_ensures(buf->len == 0 && buf->capacity == 0 && buf->buffer == NULL && buf->allocator == NULL)
+;
+
+/* dynamic append.  Fails only when len + from->len overflows (aws_mem_acquire aborts on OOM in this version);
+ * a failing call changes nothing.  g_expect_secure lets a wrapper's harness check the flag it passes. */
+bool g_expect_secure_on;
+bool g_expect_secure;
+#define GHOST_RESET() do { GHOST_RESET_COMMON(); GHOST_RESET_ALLOC(); g_expect_secure_on = false; } while (0)
+#define DYN_OK(to, from) ((from)->len <= SIZE_MAX - (to)->len)
+#define DYN_GROWS(to, from) ((to)->capacity - (to)->len < (from)->len)
+
+#define APPEND_DYNAMIC_CONTRACT(FROM_REQ)                                                                              \
+    __CPROVER_requires(BUF_OK(to) && to->allocator != NULL)                                                            \
+    FROM_REQ                                                                                                           \
+    REQ_WITNESS_BUF(to)                                                                                                \
+    __CPROVER_requires(g_on ==> (g_j < from->len && from->len < VERIF_HUGE ==> g_src == from->ptr[g_j]))               \
+    __CPROVER_assigns(DYN_OK(to, from) : to->len, to->buffer, to->capacity)                                            \
+    __CPROVER_assigns(DYN_OK(to, from) && !DYN_GROWS(to, from) && from->len > 0 : __CPROVER_object_upto(to->buffer + to->len, from->len)) \
+    __CPROVER_assigns(DYN_OK(to, from) && DYN_GROWS(to, from) && to->capacity > 0 : __CPROVER_object_upto(to->buffer, to->capacity))      \
+    __CPROVER_frees(DYN_OK(to, from) && DYN_GROWS(to, from) : to->buffer)                                              \
+    __CPROVER_ensures(RET == AWS_OP_SUCCESS || RET == AWS_OP_ERR)                                                      \
+    __CPROVER_ensures((RET == AWS_OP_SUCCESS) == (from->len <= SIZE_MAX - OLD(to->len)))                               \
+    __CPROVER_ensures(RET != AWS_OP_SUCCESS ==> to->len == OLD(to->len) && to->capacity == OLD(to->capacity) && PEQ(to->buffer, OLD(to->buffer))) \
+    __CPROVER_ensures(to->allocator == OLD(to->allocator))                                                             \
+    __CPROVER_ensures(RET == AWS_OP_SUCCESS ==> to->len == OLD(to->len) + from->len && to->len <= to->capacity)        \
+    __CPROVER_ensures(RET == AWS_OP_SUCCESS && OLD(to->capacity) - OLD(to->len) >= from->len ==>                       \
+                      to->capacity == OLD(to->capacity) && PEQ(to->buffer, OLD(to->buffer)))                           \
+    __CPROVER_ensures(RET == AWS_OP_SUCCESS && OLD(to->capacity) - OLD(to->len) < from->len ==>                        \
+                      __CPROVER_is_fresh(to->buffer, to->capacity) &&                                                  \
+                      to->capacity >= OLD(to->capacity) &&                                                             \
+                      (to->capacity == OLD(to->len) + from->len ||                                                     \
+                       (OLD(to->capacity) <= SIZE_HALF && to->capacity == 2 * OLD(to->capacity)) ||                    \
+                       (OLD(to->capacity) > SIZE_HALF && to->capacity == SIZE_MAX)))                                   \
+    __CPROVER_ensures(g_on && RET == AWS_OP_SUCCESS && g_k < OLD(to->len) ==> to->buffer[g_k] == g_old)                \
+    __CPROVER_ensures(g_on && RET == AWS_OP_SUCCESS && g_j < from->len ==> to->buffer[OLD(to->len) + g_j] == g_src)
+
+#define FROM_SEPARATE __CPROVER_requires(CUR_OK(from))
+/* the aliasing the API allows: the source view lies inside the bytes already written to the destination */
+#define FROM_INSIDE_TO                                                                                                 \
+    __CPROVER_requires(__CPROVER_is_fresh(from, sizeof(*from)))                                                        \
+    __CPROVER_requires(to->len > 0 && __CPROVER_pointer_in_range_dfcc(to->buffer, from->ptr, to->buffer + to->len))    \
+    __CPROVER_requires(from->len <= to->len - __CPROVER_POINTER_OFFSET(from->ptr))
+
+#if defined(VERIF_APPEND_DYNAMIC_HUGE)
+/* source length beyond any object: must be refused (or die in the allocator) before a byte is touched */
+#    define DYN_FROM __CPROVER_requires(__CPROVER_is_fresh(from, sizeof(*from)) && from->len >= VERIF_HUGE)
+#elif !defined(VERIF_APPEND_DYNAMIC_ALIASED)
+#    define DYN_FROM FROM_SEPARATE
+#else
+#    define DYN_FROM FROM_INSIDE_TO
+#endif
+
+static int s_aws_byte_buf_append_dynamic(struct aws_byte_buf *to, const struct aws_byte_cursor *from, bool clear_released_memory)
+APPEND_DYNAMIC_CONTRACT(DYN_FROM)
+__CPROVER_requires(g_zero_on ==> clear_released_memory && g_rsize == to->capacity)
+__CPROVER_requires(g_expect_secure_on ==> clear_released_memory == g_expect_secure)
+;
+
+int aws_byte_buf_append_dynamic(struct aws_byte_buf *to, const struct aws_byte_cursor *from)
+APPEND_DYNAMIC_CONTRACT(DYN_FROM)
+;
+int aws_byte_buf_append_dynamic_secure(struct aws_byte_buf *to, const struct aws_byte_cursor *from)
+APPEND_DYNAMIC_CONTRACT(DYN_FROM)
+;
+
+#define APPEND_BYTE_DYNAMIC_CONTRACT                                                                                   \
+    __CPROVER_requires(BUF_OK(buffer) && buffer->allocator != NULL)                                                    \
+    REQ_WITNESS_BUF(buffer)                                                                                            \
+    __CPROVER_requires(g_on ==> (g_j < 1 ==> g_src == value))                                                          \
+    __CPROVER_assigns(buffer->len < SIZE_MAX : buffer->len, buffer->buffer, buffer->capacity)                          \
+    __CPROVER_assigns(buffer->len < buffer->capacity : __CPROVER_object_upto(buffer->buffer + buffer->len, 1))         \
+    __CPROVER_assigns(buffer->len < SIZE_MAX && buffer->len == buffer->capacity && buffer->capacity > 0 : __CPROVER_object_upto(buffer->buffer, buffer->capacity)) \
+    __CPROVER_frees(buffer->len < SIZE_MAX && buffer->len == buffer->capacity : buffer->buffer)                        \
+    __CPROVER_ensures((RET == AWS_OP_SUCCESS) == (OLD(buffer->len) < SIZE_MAX))                                        \
+    __CPROVER_ensures(RET == AWS_OP_SUCCESS || RET == AWS_OP_ERR)                                                      \
+    __CPROVER_ensures(RET != AWS_OP_SUCCESS ==> buffer->len == OLD(buffer->len) && buffer->capacity == OLD(buffer->capacity) && PEQ(buffer->buffer, OLD(buffer->buffer))) \
+    __CPROVER_ensures(RET == AWS_OP_SUCCESS && OLD(buffer->len) < OLD(buffer->capacity) ==> buffer->capacity == OLD(buffer->capacity) && PEQ(buffer->buffer, OLD(buffer->buffer))) \
+    __CPROVER_ensures(RET == AWS_OP_SUCCESS && OLD(buffer->len) == OLD(buffer->capacity) ==> buffer->capacity > OLD(buffer->capacity) && __CPROVER_is_fresh(buffer->buffer, buffer->capacity)) \
+    __CPROVER_ensures(buffer->allocator == OLD(buffer->allocator))                                                      \
+    __CPROVER_ensures(RET == AWS_OP_SUCCESS ==> buffer->len == OLD(buffer->len) + 1 && buffer->len <= buffer->capacity) \
+    __CPROVER_ensures(g_on && RET == AWS_OP_SUCCESS && g_j < 1 ==> buffer->buffer[OLD(buffer->len) + g_j] == g_src)    \
+    __CPROVER_ensures(g_on && RET == AWS_OP_SUCCESS && g_k < OLD(buffer->len) ==> buffer->buffer[g_k] == g_old)
+
+static int s_aws_byte_buf_append_byte_dynamic(struct aws_byte_buf *buffer, uint8_t value, bool clear_released_memory)
+APPEND_BYTE_DYNAMIC_CONTRACT
+__CPROVER_requires(g_expect_secure_on ==> clear_released_memory == g_expect_secure)
+;
+int aws_byte_buf_append_byte_dynamic(struct aws_byte_buf *buffer, uint8_t value)
+APPEND_BYTE_DYNAMIC_CONTRACT
+;
+int aws_byte_buf_append_byte_dynamic_secure(struct aws_byte_buf *buffer, uint8_t value)
+APPEND_BYTE_DYNAMIC_CONTRACT
+;
+
+/* reserve: afterwards capacity >= requested; contents kept; never fails in this version (OOM aborts) */
+int aws_byte_buf_reserve(struct aws_byte_buf *buffer, size_t requested_capacity)
+__CPROVER_requires(BUF_OK(buffer) && buffer->allocator != NULL)
+REQ_WITNESS_BUF(buffer)
+__CPROVER_assigns(requested_capacity > buffer->capacity : *buffer)
+__CPROVER_frees(requested_capacity > buffer->capacity : buffer->buffer)
+__CPROVER_ensures(RET == AWS_OP_SUCCESS)
+__CPROVER_ensures(buffer->len == OLD(buffer->len) && buffer->allocator == OLD(buffer->allocator))
+__CPROVER_ensures(requested_capacity <= OLD(buffer->capacity) ==> buffer->capacity == OLD(buffer->capacity) && buffer->buffer == OLD(buffer->buffer))
+__CPROVER_ensures(requested_capacity > OLD(buffer->capacity) ==> buffer->capacity == requested_capacity && __CPROVER_is_fresh(buffer->buffer, buffer->capacity))
+__CPROVER_ensures(g_on && g_k < buffer->len ==> buffer->buffer[g_k] == g_old)
+;
+
+int aws_byte_buf_reserve_relative(struct aws_byte_buf *buffer, size_t additional_length)
+__CPROVER_requires(BUF_OK(buffer) && buffer->allocator != NULL)
+REQ_WITNESS_BUF(buffer)
+__CPROVER_assigns(additional_length <= SIZE_MAX - buffer->len && buffer->len + additional_length > buffer->capacity : *buffer)
+__CPROVER_frees(additional_length <= SIZE_MAX - buffer->len && buffer->len + additional_length > buffer->capacity : buffer->buffer)
+__CPROVER_ensures((RET == AWS_OP_SUCCESS) == (additional_length <= SIZE_MAX - OLD(buffer->len)))
+__CPROVER_ensures(RET == AWS_OP_SUCCESS || RET == AWS_OP_ERR)
+__CPROVER_ensures(buffer->len == OLD(buffer->len) && buffer->allocator == OLD(buffer->allocator))
+__CPROVER_ensures(RET != AWS_OP_SUCCESS ==> buffer->capacity == OLD(buffer->capacity) && buffer->buffer == OLD(buffer->buffer))
+__CPROVER_ensures(RET == AWS_OP_SUCCESS ==> buffer->capacity >= buffer->len + additional_length && buffer->capacity >= OLD(buffer->capacity))
+__CPROVER_ensures(RET == AWS_OP_SUCCESS && buffer->capacity > 0 && buffer->capacity != OLD(buffer->capacity) ==> __CPROVER_is_fresh(buffer->buffer, buffer->capacity))
+__CPROVER_ensures(buffer->capacity == OLD(buffer->capacity) ==> buffer->buffer == OLD(buffer->buffer))
+__CPROVER_ensures(g_on && g_k < buffer->len ==> buffer->buffer[g_k] == g_old)
+;
+
+int aws_byte_buf_reserve_smart(struct aws_byte_buf *buffer, size_t requested_capacity)
+__CPROVER_requires(BUF_OK(buffer) && buffer->allocator != NULL)
+REQ_WITNESS_BUF(buffer)
+__CPROVER_assigns(requested_capacity > buffer->capacity : *buffer)
+__CPROVER_frees(requested_capacity > buffer->capacity : buffer->buffer)
+__CPROVER_ensures(RET == AWS_OP_SUCCESS)
+__CPROVER_ensures(buffer->len == OLD(buffer->len) && buffer->allocator == OLD(buffer->allocator))
+__CPROVER_ensures(requested_capacity <= OLD(buffer->capacity) ==> buffer->capacity == OLD(buffer->capacity) && buffer->buffer == OLD(buffer->buffer))
+__CPROVER_ensures(requested_capacity > OLD(buffer->capacity) ==> buffer->capacity >= requested_capacity && __CPROVER_is_fresh(buffer->buffer, buffer->capacity) &&
+                  (buffer->capacity == requested_capacity || (OLD(buffer->capacity) <= SIZE_HALF && buffer->capacity == 2 * OLD(buffer->capacity)) || (OLD(buffer->capacity) > SIZE_HALF && buffer->capacity == SIZE_MAX)))
+__CPROVER_ensures(g_on && g_k < buffer->len ==> buffer->buffer[g_k] == g_old)
+;
+
+int aws_byte_buf_reserve_smart_relative(struct aws_byte_buf *buffer, size_t additional_length)
+__CPROVER_requires(BUF_OK(buffer) && buffer->allocator != NULL)
+REQ_WITNESS_BUF(buffer)
+__CPROVER_assigns(additional_length <= SIZE_MAX - buffer->len && buffer->len + additional_length > buffer->capacity : *buffer)
+__CPROVER_frees(additional_length <= SIZE_MAX - buffer->len && buffer->len + additional_length > buffer->capacity : buffer->buffer)
+__CPROVER_ensures((RET == AWS_OP_SUCCESS) == (additional_length <= SIZE_MAX - OLD(buffer->len)))
+__CPROVER_ensures(RET == AWS_OP_SUCCESS || RET == AWS_OP_ERR)
+__CPROVER_ensures(buffer->len == OLD(buffer->len) && buffer->allocator == OLD(buffer->allocator))
+__CPROVER_ensures(RET != AWS_OP_SUCCESS ==> buffer->capacity == OLD(buffer->capacity) && buffer->buffer == OLD(buffer->buffer))
+__CPROVER_ensures(RET == AWS_OP_SUCCESS ==> buffer->capacity >= buffer->len + additional_length && buffer->capacity >= OLD(buffer->capacity))
+__CPROVER_ensures(RET == AWS_OP_SUCCESS && buffer->capacity > 0 && buffer->capacity != OLD(buffer->capacity) ==> __CPROVER_is_fresh(buffer->buffer, buffer->capacity))
+__CPROVER_ensures(buffer->capacity == OLD(buffer->capacity) ==> buffer->buffer == OLD(buffer->buffer))
+__CPROVER_ensures(g_on && g_k < buffer->len ==> buffer->buffer[g_k] == g_old)
+;
+
+/* aws_byte_buf_advance: hands out [len, len+n) of the spare capacity as a new empty buffer */
+bool aws_byte_buf_advance(struct aws_byte_buf *const AWS_RESTRICT buffer, struct aws_byte_buf *const AWS_RESTRICT output, const size_t len)
+__CPROVER_requires(BUF_OK(buffer))
+__CPROVER_requires(__CPROVER_is_fresh(output, sizeof(*output)))
+__CPROVER_assigns(*output)
+__CPROVER_assigns(buffer->capacity - buffer->len >= len : buffer->len)
+__CPROVER_ensures(RET == (OLD(buffer->capacity) - OLD(buffer->len) >= len))
+__CPROVER_ensures(BUF_SHAPE_KEPT(buffer))
+__CPROVER_ensures(RET ==> buffer->len == OLD(buffer->len) + len && output->len == 0 && output->capacity == len && output->allocator == NULL &&
+                  (len == 0 ? output->buffer == NULL : output->buffer == buffer->buffer + OLD(buffer->len)))
+__CPROVER_ensures(!RET ==> buffer->len == OLD(buffer->len) && output->len == 0 && output->capacity == 0 && output->buffer == NULL && output->allocator == NULL)
+;
+
+int aws_byte_buf_append_and_update(struct aws_byte_buf *to, struct aws_byte_cursor *from_and_update)
+__CPROVER_requires(BUF_OK(to))
+__CPROVER_requires(CUR_OK(from_and_update))
+REQ_WITNESS_BUF(to)
+__CPROVER_assigns(APPEND_FITS(to, from_and_update) : to->len, from_and_update->ptr)
+__CPROVER_assigns(APPEND_FITS(to, from_and_update) && from_and_update->len > 0 : __CPROVER_object_upto(to->buffer + to->len, from_and_update->len))
+__CPROVER_ensures(RET == AWS_OP_SUCCESS || RET == AWS_OP_ERR)
+__CPROVER_ensures((RET == AWS_OP_SUCCESS) == (OLD(to->capacity) - OLD(to->len) >= from_and_update->len))
+__CPROVER_ensures(from_and_update->len == OLD(from_and_update->len))
+__CPROVER_ensures(RET == AWS_OP_SUCCESS ==> to->len == OLD(to->len) + from_and_update->len &&
+                  from_and_update->ptr == (to->buffer == NULL ? NULL : to->buffer + OLD(to->len)))
+__CPROVER_ensures(RET != AWS_OP_SUCCESS ==> to->len == OLD(to->len) && from_and_update->ptr == OLD(from_and_update->ptr))
+__CPROVER_ensures(BUF_SHAPE_KEPT(to))
+ENS_PREFIX_KEPT(to)
+;
+
 #endif
